@@ -107,7 +107,7 @@ def run(chk):
         ist = res["impl_status"]
         exp, _, why = rb.expected_status(c, capv)
         zone = [d for d in rb.near_cap_jumbo(c, capv) if d <= 12]
-        replay = {"script": c.short(4000), "cap": capv, "impl_status": ist,
+        replay = {"script": c.short(4000), "cap": capv, "impl_status": ist, "environment": res.get("environment"),
                   "how": "echo '<script>' | build/harness/rtbuf_drv-* <dir>; ovniemu -l <dir>/c0/ovni"}
         if exp != "ok":
             return  # not a conformant program (corpus may hold such lines); C01 judges those
